@@ -3,69 +3,119 @@
 
   `PlanWf.wf` follows the engine's run-time resolution order, which never fails as long as SOME field of the batch
   ends in `.name`: a reference `b.k` evaluated against a batch `[a.id, a.k]` silently reads `a.k`.  A well-formed plan
-  must not rely on that fallback: a QUALIFIED reference has to find a field of exactly its qualified name in the scope
-  it resolves in (`qualP`).  `wfq = wf && qualP` is what the C31 driver demands of every rule's output.
+  must not rely on that fallback: the column a QUALIFIED reference reads at run time has to be the column of exactly
+  that qualified name.  The name of a column is its physical field name (`outSchema`) or its logical one
+  (`logSchema`: the same columns, position by position, with the qualifiers SubqueryAlias nodes give them — the
+  physical planner drops those nodes, so `x.q1` over `(SELECT … AS q1) AS x` reads the physical field `q1`).
 
-  Scopes are as in `PlanWf.wfP`: the schema of the batch the operator receives, then the enclosing queries' batches.
-  The reference is judged in the FIRST scope in which the engine's resolution succeeds (that is the scope the
-  executor reads from).
+  Scopes are as in `PlanWf.wfP`: the batch the operator receives, then the enclosing queries' batches.  A reference is
+  judged in the FIRST scope in which the engine's resolution succeeds (the scope the executor reads from).
+
+  `badP` lists the offending references; `qualP = no offending reference`; the driver demands of every rule that it
+  introduces none (`noNewBad`): a correlated reference inside a not-yet-decorrelated subquery expression may already be
+  shadowed in the binder's plan, which is not the rule's doing.
 -/
 import IQE.Engine.PlanWf
 namespace IQE.Engine.PlanWf
 
-/-- the schema has a field whose physical name is exactly `r.n` -/
-def hasQual (s : Schema) (r n : String) : Bool := s.any (fun f => f.qname == r ++ "." ++ n)
+/-- a scope: the physical schema of the batch and the logical names of the same columns -/
+abbrev QScope := Schema × Schema
+
+/-- the logical names of the columns `outSchema` lists (same length, same order): SubqueryAlias re-qualifies -/
+def logSchema : Plan → Schema
+  | .scan _ s proj _ => match proj with | some idx => projectSchema s idx | none => s
+  | .filter _ i => logSchema i
+  | .project _ s _ => s
+  | .join jt _ _ _ s l r =>
+    match jt with
+    | .semi | .anti => logSchema l
+    | .mark => logSchema l ++ s.drop (s.length - 1)
+    | _ => logSchema l ++ logSchema r
+  | .agg _ _ s _ => s
+  | .window _ _ s _ => s
+  | .sort _ _ i => logSchema i
+  | .limit _ _ i => logSchema i
+  | .distinct i => logSchema i
+  | .union _ s _ => s
+  | .alias n _ _ i => (logSchema i).map (fun f => { f with rel := some n })
+  | .empty _ s => s
+  | .values _ _ s => s
+  | .delimJoin _ _ _ _ s _ _ => s
+  | .delimGet _ s _ => s
+  | .vsearch _ _ _ _ _ s _ => s
+
+def qscope (p : Plan) : QScope := (outSchema p, logSchema p)
+
+def nameAt (s : Schema) (i : Nat) (q : String) : Bool :=
+  match s[i]? with
+  | some f => f.qname == q
+  | none => false
+
+/-- the column the engine reads for `r.n` in this scope is called `r.n`, physically or logically -/
+def exactAt (sc : QScope) (r n : String) : Bool :=
+  match resolve sc.1 (some r) n with
+  | some i => nameAt sc.1 i (r ++ "." ++ n) || nameAt sc.2 i (r ++ "." ++ n)
+  | none => false
 
 /-- the first scope in which the engine resolves the reference -/
-def firstScope (scopes : List Schema) (rel : Option String) (name : String) : Option Schema :=
-  scopes.find? (fun s => (resolve s rel name).isSome)
+def firstScope (scopes : List QScope) (r n : String) : Option QScope :=
+  scopes.find? (fun sc => (resolve sc.1 (some r) n).isSome)
 
-/-- a qualified reference reads a field of exactly its qualified name -/
-def qualRef (scopes : List Schema) (r n : String) : Bool :=
-  match firstScope scopes (some r) n with
-  | some s => hasQual s r n
+/-- a qualified reference reads the column of exactly its qualified name -/
+def qualRef (scopes : List QScope) (r n : String) : Bool :=
+  match firstScope scopes r n with
+  | some sc => exactAt sc r n
   | none => false
 
 mutual
-def qualE (scopes : List Schema) : PExpr → Bool
-  | .col (some r) n => qualRef scopes r n
-  | .col none _ => true
-  | .lit _ _ => true
-  | .op _ _ args => qualEs scopes args
-  | .alias e _ => qualE scopes e
-  | .sub _ _ args p => qualEs scopes args && qualP scopes p
-  | .star _ => true
-def qualEs (scopes : List Schema) : List PExpr → Bool
-  | [] => true
-  | e :: es => qualE scopes e && qualEs scopes es
-/-- every qualified column reference of the plan reads a field of its own qualified name; the scopes are those of `wfP` -/
-def qualP (outer : List Schema) : Plan → Bool
-  | .scan _ s proj filter => qualEs ((match proj with | some idx => projectSchema s idx | none => s) :: outer) filter
-  | .filter pred i => qualP outer i && qualE (outSchema i :: outer) pred
-  | .project exprs _ i => qualP outer i && qualEs (outSchema i :: outer) exprs
+/-- the qualified references of an expression that read some other column (as `r.n`) -/
+def badE (scopes : List QScope) : PExpr → List String
+  | .col (some r) n => if qualRef scopes r n then [] else [r ++ "." ++ n]
+  | .col none _ => []
+  | .lit _ _ => []
+  | .op _ _ args => badEs scopes args
+  | .alias e _ => badE scopes e
+  | .sub _ _ args p => badEs scopes args ++ badP scopes p
+  | .star _ => []
+def badEs (scopes : List QScope) : List PExpr → List String
+  | [] => []
+  | e :: es => badE scopes e ++ badEs scopes es
+/-- the offending qualified references of a plan; the scopes are those of `wfP` -/
+def badP (outer : List QScope) : Plan → List String
+  | .scan _ s proj filter =>
+    let ps := match proj with | some idx => projectSchema s idx | none => s
+    badEs ((ps, ps) :: outer) filter
+  | .filter pred i => badP outer i ++ badE (qscope i :: outer) pred
+  | .project exprs _ i => badP outer i ++ badEs (qscope i :: outer) exprs
   | .join _ onL onR filter _ l r =>
-    qualP outer l && (qualP outer r && (qualEs (outSchema l :: outer) onL && (qualEs (outSchema r :: outer) onR
-      && qualEs ((outSchema l ++ outSchema r) :: outer) filter)))
-  | .agg group aggs _ i => qualP outer i && (qualEs (outSchema i :: outer) group && qualEs (outSchema i :: outer) aggs)
-  | .window _ wexprs _ i => qualP outer i && qualEs (outSchema i :: outer) wexprs
-  | .sort keys _ i => qualP outer i && qualEs (outSchema i :: outer) keys
-  | .limit _ _ i => qualP outer i
-  | .distinct i => qualP outer i
-  | .union _ _ inputs => qualPs outer inputs
-  | .alias _ _ _ i => qualP outer i
-  | .empty _ _ => true
-  | .values rows _ _ => qualEs outer rows
+    badP outer l ++ (badP outer r ++ (badEs (qscope l :: outer) onL ++ (badEs (qscope r :: outer) onR
+      ++ badEs ((outSchema l ++ outSchema r, logSchema l ++ logSchema r) :: outer) filter)))
+  | .agg group aggs _ i => badP outer i ++ (badEs (qscope i :: outer) group ++ badEs (qscope i :: outer) aggs)
+  | .window _ wexprs _ i => badP outer i ++ badEs (qscope i :: outer) wexprs
+  | .sort keys _ i => badP outer i ++ badEs (qscope i :: outer) keys
+  | .limit _ _ i => badP outer i
+  | .distinct i => badP outer i
+  | .union _ _ inputs => badPs outer inputs
+  | .alias _ _ _ i => badP outer i
+  | .empty _ _ => []
+  | .values rows _ _ => badEs outer rows
   | .delimJoin _ delim onL onR _ l r =>
-    qualP outer l && (qualP outer r && (qualEs (outSchema l :: outer) delim && (qualEs (outSchema l :: outer) onL
-      && qualEs (outSchema r :: outer) onR)))
-  | .delimGet _ _ _ => true
-  | .vsearch _ _ sortKey _ _ _ i => qualP outer i && qualE (outSchema i :: outer) sortKey
-def qualPs (outer : List Schema) : List Plan → Bool
-  | [] => true
-  | p :: ps => qualP outer p && qualPs outer ps
+    badP outer l ++ (badP outer r ++ (badEs (qscope l :: outer) delim ++ (badEs (qscope l :: outer) onL
+      ++ badEs (qscope r :: outer) onR)))
+  | .delimGet _ _ _ => []
+  | .vsearch _ _ sortKey _ _ _ i => badP outer i ++ badE (qscope i :: outer) sortKey
+def badPs (outer : List QScope) : List Plan → List String
+  | [] => []
+  | p :: ps => badP outer p ++ badPs outer ps
 end
 
-/-- the C31 checker: run-time resolvable (`wf`) and no qualified reference resolved through the suffix fallback -/
-def wfq (p : Plan) : Bool := wf p && qualP [] p
+/-- no qualified reference of the plan is resolved through the bare-name / suffix fallback to another column -/
+def qualP (p : Plan) : Bool := (badP [] p).isEmpty
+
+/-- the rule's output has no offending reference its input did not already have -/
+def noNewBad (before after : Plan) : Bool := (badP [] after).all (fun x => (badP [] before).contains x)
+
+/-- the C31 checker on a plan: run-time resolvable (`wf`) and every qualified reference reads its own column -/
+def wfq (p : Plan) : Bool := wf p && qualP p
 
 end IQE.Engine.PlanWf
